@@ -98,12 +98,12 @@ CHECKS = {
         note="Finite score numerics and integers beyond 32 bits are decided by the lifted Go reference, not by TLC; sizes are bounded (elements up to 16384, strings up to 70000 bytes)."),
     "C17": dict(
         level="model_checking", design="DESIGN.md 4/C17",
-        technique="TLA+ model of the decode pipeline (Decode.tla: loader, bounded channels, N workers, writer) model-checked by TLC for all interleavings (completeness, no duplication, adjacency, termination under weak fairness); the real CmdDecode.Main() is run on generated RDB files with parallel 1..8 and its parsed output - each line attributed to (record, element) and content-compared through its base64 fields - is validated by TLC against the same contract (DecodeTrace.tla)",
+        technique="TLA+ model of the decode pipeline (Decode.tla: loader, bounded channels, N workers, writer) model-checked by TLC for all interleavings (completeness, no duplication, adjacency, termination under weak fairness); the real CmdDecode.Main() is run on generated RDB files with parallel 1..8 and its parsed output - each line attributed to (record, element) and content-compared through its base64 fields - is validated by TLC against the same contract (DecodeTrace.tla); runs over FIFOs spanning the progress ticks and runs with the same input given twice",
         text="TLC explores every interleaving of the abstract pipeline for up to 5 records and 4 workers; the real command is bound by trace validation of its output for generated files covering every classic type and encoding, binary and numeric key names, expiries, several databases, scripts, infinite scores, hashes above the split limit in the middle of the file, more records than the channels hold, parallel 1..8.",
         note="Real goroutine schedules are sampled (free-running), not enumerated: decode.go has no gate hooks; script lines are compared as text."),
     "C16": dict(
         level="model_checking", design="DESIGN.md 4/C16",
-        technique="TLA+ model of the rump executor (Rump.tla: fetcher with SCAN / DUMP / PTTL rounds, bounded channels, writer with per-connection SELECT tracking, batch flush and big-key route, receiver; keys vanishing at any moment) model-checked by TLC for all interleavings (Copied, NoGhost, termination under weak fairness); scenarios from the same space are run through the real CmdRump.Main() against two model Redis servers over TCP and the final target keyspace and the way the run ended are validated by TLC (RumpTrace.tla)",
+        technique="TLA+ model of the rump executor (Rump.tla: fetcher with SCAN / DUMP / PTTL rounds, bounded channels, writer with per-connection SELECT tracking, batch flush and big-key route, receiver; keys vanishing at any moment) model-checked by TLC for all interleavings (Copied, NoGhost, termination under weak fairness); scenarios from the same space are run through the real CmdRump.Main() against two model Redis servers over TCP and the final target keyspace and the way the run ended are validated by TLC (RumpTrace.tla); several sources at once: composition of the executors' contracts (RumpFan.tla) model-checked, a third of the real runs migrate 2-3 sources in one command",
         text="TLC explores every interleaving and vanish history of the abstract pipeline for small keyspaces (empty pages, batch 1-2, big keys in non-zero databases, fixed target database); the real command is bound by trace validation over generated keyspaces, paginations with arbitrary cursors and empty pages, keys vanishing before DUMP / PTTL, thresholds, key_exists none / rewrite with pre-existing keys, target.db, db / key filters, key-file scans (with blank lines) and a rate limit below the key count with a lull at the source.",
         note="Real goroutine schedules are free-running (no gate hooks in rump.go); the model clock is fixed so TTLs compare exactly; duplicate keys in a scan are not generated."),
 }
